@@ -642,3 +642,17 @@ func (s *Server) RevokeLease(id int64) bool {
 
 // NumWatchers is used by tests of the harness itself.
 func (s *Server) NumWatchers() int { s.mu.Lock(); defer s.mu.Unlock(); return len(s.watchers) }
+
+// RevokeAll revokes every lease (models: all sessions of dead clients have expired).
+func (s *Server) RevokeAll() {
+	s.mu.Lock()
+	defer s.mu.Unlock()
+	ids := make([]int64, 0, len(s.leases))
+	for id := range s.leases {
+		ids = append(ids, id)
+	}
+	sort.Slice(ids, func(i, j int) bool { return ids[i] < ids[j] })
+	for _, id := range ids {
+		s.revokeLocked(id)
+	}
+}
